@@ -99,6 +99,9 @@ def run(out, tier, prop):
         out.add_tlc(r, "RefCountRace exhaustive: 3 holders releasing the last references concurrently (fetch_sub / decide), AtMostOnce, ExactlyOnceAtEnd")
         if vlib.tlc(D, "RefCountRace", cfg="RefCountRaceNeg", workers=2, timeout=300).ok:
             raise vlib.ToolError("negative control: a non-atomic decrement-then-load was not detected by AtMostOnce")
+        # ... and for ANY number of holders, by the proof system (an inductive invariant; not a bounded check)
+        n = vlib.tlapm(D, "RefCountRaceProof")
+        out.extra["tlaps_obligations_proved"] = n
         for k in (2, 3):
             behs.append({"src": "racedrop", "mode": "racedrop", "rounds": 60000 if quick else 1000000, "threads": k, "steps": []})
     lines, found = execute(behs, prop.lower())
